@@ -6,7 +6,9 @@ tables.  Every generated expression is laid down by the real assembler as data
 target) and read back from the code file with the independent reader vf/pfile.py; the bytes
 must equal the model's value (libm results within a tolerance).  Expressions the manual
 defines as errors (division by zero, arguments outside a function's domain, operand types the
-tables exclude) must draw an error message on their own line.  A disagreement is localised by
+tables exclude) must draw an error message on their own line.  Values routed through
+user-defined FUNCTIONs (int/float/string arguments, nested calls, arguments used several times)
+are laid down next to the same formula written inline and must match it, and the model, bit for bit.  A disagreement is localised by
 re-assembling every sub-expression of the failing tree, and is keyed by the innermost operator
 or function that disagrees plus the sign/type class of its operands.
 """
@@ -38,10 +40,10 @@ MANIFEST = dict(
               'failing trees are localised to the innermost disagreeing operator by re-assembling all sub-expressions',
     text='Held on the executions of this run: random expression trees to depth 6 (fully bracketed and minimally bracketed renderings), all bit/string '
          'functions over boundary arguments, integer constants in every enabled notation for RADIX 2..36 under INTSYNTAX/RELAXED settings on 8 targets, '
-         'and expressions the manual defines as errors; every value laid down by asl equalled the model\'s, every undefined or ill-typed operation drew an error.',
+         'values routed through user-defined FUNCTIONs next to the same formula written inline, and expressions the manual defines as errors; every value laid down by asl equalled the model\'s, every undefined or ill-typed operation drew an error.',
     note='Not generated because the manual is silent: shift counts outside 0..63, integer power with negative exponent, 0^0, remainder sign for negative '
          'operands, collating order of strings (only order-independent relations), integer constants above 2^63-1, string+number, INT of negative '
-         'fractions and its result type, monadic minus on non-constants, float overflow/denormals.')
+         'fractions and its result type, monadic minus on non-constants, float overflow/denormals, parameter names inside string constants or VAL texts of a FUNCTION formula.')
 
 SLOT = 64
 BASE = 0x1000
@@ -285,6 +287,15 @@ def arg_class(v):
     return c
 
 
+def arg_classes(kids):
+    """the kinds of actual arguments present (a set, and only the strings that need escapes if there are any: keeps the number of keys small)"""
+    cls = set(arg_class(k.val) for k in kids)
+    special = set(c.replace('-quote', '') for c in cls if '-ctrl' in c or '-high' in c)
+    if special and 'f' in cls:
+        special.add('f')          # a float argument is text of 17 digits: never left out of the key
+    return '+'.join(sorted(special or cls))
+
+
 def pos_class(pos, n):
     if pos < 0:
         return 'neg-big' if pos < -(1 << 31) else 'neg'
@@ -328,7 +339,7 @@ def node_key(n, status, detail=None):
     if n.kind == 'tri':
         return '%s:string-order:%s' % (what, '/'.join(n.op))
     if n.kind == 'ucall':
-        return '%s:user-function:%s' % (what, tclasses(n.kids, arg_class))
+        return '%s:user-function:%s' % (what, arg_classes(n.kids))
     if n.kind in ('un', 'bin'):
         return '%s:%s:%s' % (what, n.op, coerced_classes(n) if what == 'value' else tclasses(n.kids, E.vtype))
     # call
@@ -534,7 +545,7 @@ def case_ufunc(ctx, n):
             if a.raw == b.raw:
                 out.obs['user_function_calls_identical_to_inline'] += 1
             else:
-                cls = tclasses(a.node.kids, arg_class) if a.node.kind == 'ucall' else 'inside-formula'
+                cls = arg_classes(a.node.kids) if a.node.kind == 'ucall' else 'inside-formula'
                 out.violate('user-function:differs-from-inline:%s' % cls,
                             '`%s` lays down %s, the same formula written inline `%s` lays down %s (manual: parameters are calculated once and inserted into the formula)'
                             % (a.text, a.raw.hex(), b.text, b.raw.hex()))
